@@ -92,7 +92,7 @@ func (st *strat) Choose(s *vsched.Sched, opts []vsched.Transition, nThread, cur 
 	}
 	// quiescent point: every thread is parked
 	w.mon.AtQuiescent()
-	if len(w.mon.viol) > 0 && !w.mon.keepGoing {
+	if w.mon.unknownViolations() > 0 && !w.mon.keepGoing {
 		w.endWhy = "violation"
 		return -1
 	}
